@@ -236,6 +236,7 @@ Behaviour ==
    expect_v |-> IF hist.vskip THEN "" ELSE IF Satisfied(cs.P) THEN "ok" ELSE "reject",
    expect_p |-> IF cberr.P # "" THEN cberr.P ELSE "ok",      \* a failing callback fails prove
    vskip |-> hist.vskip,
+   gates |-> [i \in 1 .. PLen(cs.P) |-> << cs.P.aL[i], cs.P.aR[i], cs.P.aO[i] >>],    \* the prover's final assignment
    rets |-> [P |-> hist.retP, V |-> hist.retV]]
 
 Emit == (GEN /\ hist.fin) => PrintT(<< "BEHAVIOUR", ToJson(Behaviour) >>)
